@@ -13,9 +13,9 @@ func runtimeStack(buf []byte) int { return runtime.Stack(buf, true) }
 // (the replay default past the end is 0 = no fault / no preemption / first alternative), zero
 // blocks, delete blocks, lower single values. Every candidate is one fresh simulated run.
 func minimise(t *testing.T, p Property, rec [nLanes][]uint32, v Violation, opt RunOpt) ([nLanes][]uint32, Violation) {
-	budgetRuns := 400
+	budgetRuns := 1500
 	if raceBuild {
-		budgetRuns = 200
+		budgetRuns = 300
 	}
 	deadline := time.Now().Add(40 * time.Second)
 	runs := 0
